@@ -131,6 +131,10 @@ def run(chk, prog):
     # unit must be the natural length for the effective f_s/alpha -- decided under C03 R1, R2, R6; re-evaluated here)
     from .common import reeval
     reeval(chk, prog, "C03", lambda i: i["rule"] in ("R1", "R2", "R6"), "R5", "R5-rotation-matching", 10)
+    # ---- R6: bunch length and energy spread are what PhaseSpace::variance reports: second moment of the bunch's own projection, normalised
+    # by the bunch's own charge (formulas decided under C09 R2; re-evaluated here)
+    from .common import reeval
+    reeval(chk, prog, "C09", lambda i: i["rule"] == "R2", "R6", "R6-moment-formulas", 8)
     # ---- RD: dimensional consistency of the quantities this property depends on (sa/dims.py) ----------------------------------------
     from . import dimrules
     nrd = dimrules.run(chk, prog, "RD")
